@@ -252,8 +252,8 @@ def run(chk, tier):
     # SLOTS-D / SLOTS-C: the destroyed range is the removed tail; construction happens at the first free slot
     slots.check(chk, D.load("plain"), ["static_vector", "inplace_vector"],
                 lambda r: ("trivial_storage" not in r) or ("non_trivial" in r), only=("D", "C"))
-    if chk.rule_instances.get("SLOTS-D", 0) < 4 or chk.rule_instances.get("SLOTS-C", 0) < 3:
-        chk.analysis_broken("SLOTS: only %d shrinking / %d constructing size stores found in the vectors (floors 4 / 3)" % (
+    if chk.rule_instances.get("SLOTS-D", 0) < 2 or chk.rule_instances.get("SLOTS-C", 0) < 1:
+        chk.analysis_broken("SLOTS: only %d shrinking / %d constructing size stores found in the vectors (floors 2 / 1)" % (
             chk.rule_instances.get("SLOTS-D", 0), chk.rule_instances.get("SLOTS-C", 0)))
     # delegating owners: no primitive lifecycle effect of their own, rule of five
     for rq in DELEGATING:
